@@ -154,3 +154,54 @@ func IsSubsequence(sub, full []byte) bool {
 
 	return j == len(sub)
 }
+
+// DecodeChunkedPrefix strictly decodes one message from the front of a stream and returns the
+// payload and the number of bytes consumed (including the final LF).
+func DecodeChunkedPrefix(in []byte) (payload []byte, n int, err error) {
+	i := 0
+	chunks := 0
+
+	for {
+		if i+1 >= len(in) || in[i] != '\n' || in[i+1] != '#' {
+			return nil, 0, fmt.Errorf("offset %d: expected LF '#'", i)
+		}
+
+		i += 2
+
+		if i < len(in) && in[i] == '#' {
+			i++
+			if i >= len(in) || in[i] != '\n' {
+				return nil, 0, fmt.Errorf("offset %d: expected LF after '##'", i)
+			}
+
+			if chunks == 0 {
+				return nil, 0, fmt.Errorf("end-of-chunks without any chunk")
+			}
+
+			return payload, i + 1, nil
+		}
+
+		j := i
+		for j < len(in) && in[j] >= '0' && in[j] <= '9' && j-i < 10 {
+			j++
+		}
+
+		if j == i || in[i] == '0' || j >= len(in) || in[j] != '\n' {
+			return nil, 0, fmt.Errorf("offset %d: bad chunk header", i)
+		}
+
+		size, perr := strconv.ParseUint(string(in[i:j]), 10, 64)
+		if perr != nil || size > 4294967295 {
+			return nil, 0, fmt.Errorf("offset %d: chunk size out of range", i)
+		}
+
+		i = j + 1
+		if uint64(len(in)-i) < size {
+			return nil, 0, fmt.Errorf("offset %d: chunk of %d bytes but only %d remain", i, size, len(in)-i)
+		}
+
+		payload = append(payload, in[i:i+int(size)]...)
+		i += int(size)
+		chunks++
+	}
+}
